@@ -88,6 +88,16 @@ pub fn check_plans(values: &[u8], rng: &mut Rng, v: &mut Vec<Violation>, c: &mut
             fail("Arc", format!("{:?} -> {:?}", arc, arc.rewrite(&plan)));
         }
     }
+    // pending random choices that mention ids
+    {
+        let mut rc: stateright::actor::RandomChoices<Id> = Default::default();
+        rc.insert("pick".to_string(), ids.clone());
+        let got = rc.rewrite(&plan);
+        let got_ids: Option<Vec<Id>> = got.map.iter().next().map(|(_, x)| x.clone());
+        if !ids.is_empty() && got_ids != Some(m_ids.clone()) {
+            fail("RandomChoices", format!("choices {:?} -> {:?}, expected {:?}", ids, got_ids, m_ids));
+        }
+    }
     // a dense map keyed by the rewritten type moves every value to the rewritten key
     let dm: DenseNatMap<Id, u32> = tagged.clone().into();
     let got = dm.rewrite(&plan);
